@@ -34,6 +34,23 @@ PROBES = [
     ('tokenize', "END IF; END LOOP; ORDER BY; NOT NULL; UNION ALL; LEFT OUTER JOIN", {}),
     ('parse', "select f(x) over (partition by y order by z desc nulls last) as w, a::int[1], interval '1' day from t", {}),
     ('parse', "", {}),
+    # every filter on its own and in the pairs that share token objects or in-place edits
+    ('format', "select a/* c */from b /* d */ where 1/* e */+ 2 -- f\nand x", {'strip_comments': True}),
+    ('format', "select a /* c */ from b where c=1 -- f\n", {'strip_comments': True, 'use_space_around_operators': True}),
+    ('format', "select  a ,  b   from ( select 1 )  x", {'strip_whitespace': True}),
+    ('format', "select a+b, c<d, e||f from t where g>=h", {'use_space_around_operators': True, 'keyword_case': 'capitalize'}),
+    ('format', "select a /* c */ , b from t -- e\nwhere x = 1 /* f */", {'strip_comments': True, 'reindent': True}),
+    ('format', "select a,b as c from t where d=1 or e=2", {'reindent_aligned': True, 'use_space_around_operators': True}),
+    ('format', "select 'abcdefghij', \"Q\" from t", {'truncate_strings': 3, 'truncate_char': '~'}),
+    ('format', "Select A, b From T Where c In (1, 2)", {'keyword_case': 'lower', 'identifier_case': 'upper'}),
+    ('format', "select a from t;\n\n\nselect b from u;  ", {'strip_whitespace': True, 'output_format': 'python'}),
+    ('format', "select a from t union all select b from u order by 1 limit 2", {'reindent': True, 'wrap_after': 20, 'indent_width': 3}),
+    ('format', "create table t (a int, b varchar(10) not null, primary key (a))", {'reindent': True}),
+    ('format', "select a from t where x in (select y from u where z = 1)", {'reindent': True, 'strip_comments': True, 'use_space_around_operators': True}),
+    ('format', "select /*+ hint */ a, -- c\n b from t", {'strip_comments': True, 'strip_whitespace': True}),
+    ('format', "update t set a=1,b=2 where c=3", {'reindent': True, 'comma_first': True, 'use_space_around_operators': True}),
+    ('split', "select 1;  select 2 ;;  select 3; ", {'strip_semicolon': True}),
+    ('parse', "select a b, c as d, e.f g, 'x' y, f(1) z, (select 1) w from t1 u, t2 as v", {}),
 ]
 
 
@@ -45,7 +62,7 @@ def run_probe(i):
     if func == 'parse':
         return [[str(s), flat_shape(s), s.get_type()] for s in sqlparse.parse(text)]
     if func == 'split':
-        return sqlparse.split(text)
+        return sqlparse.split(text, **dict(opts))
     if func == 'tokenize':
         return [[str(t), v] for t, v in lexer.tokenize(text)]
     return sqlparse.format(text, **dict(opts))
